@@ -70,6 +70,10 @@ TrAdapt ==
     /\ (draw = P.numTune - 1) => R.inband
     \* every step size positive, finite and bounded (C07 boundedness)
     /\ R.stepok
+    \* C07: the base step size installed after this draw is the documented dual-averaging / Adam update of the
+    \* acceptance statistics of the draws so far (early windows: mean_tree_accept, later: the symmetric one),
+    \* replayed harness-side from the draws' own statistics, 1e-9
+    /\ R.daok
 
 TNext == TrReset \/ TrAdapt
 TSpec == TInit /\ [][TNext]_tvars
